@@ -18,6 +18,7 @@ CONSTANTS
   Allowed <- ExhaustiveCalls
   ReopenModes <- BothProcesses
   Depth = 3
+  Mode = "all"
   FinalList = FALSE
 INVARIANTS Emit
 CHECK_DEADLOCK FALSE
